@@ -39,4 +39,19 @@ def defined (signed : Bool) (m : Nat) (name : String) : Bool :=
   | some z => Spec.rep signed m z
   | none => false
 
+/-- what an alias name advertises: `U<bits>` / `I<bits>` is an unsigned / signed integer of `bits` bits,
+    built from `bits / 64` digits of 64 bits.  Parsed from the characters of the name itself. -/
+def aliasAdvertised (name : String) : Option (Bool × Nat × Nat) :=
+  match name.toList with
+  | c :: ds =>
+    let signed? := if c = 'U' then some false else if c = 'I' then some true else none
+    let bits? := if ds.isEmpty then none else
+      ds.foldl (fun acc d => do
+        let a ← acc
+        if '0' ≤ d ∧ d ≤ '9' then pure (a * 10 + (d.toNat - '0'.toNat)) else none) (some 0)
+    match signed?, bits? with
+    | some sg, some bits => some (sg, bits, bits / 64)
+    | _, _ => none
+  | [] => none
+
 end Bnum.Spec.Consts
